@@ -15,6 +15,7 @@ var All = map[string]func() *corr.Engine{
 	"C09": C09,
 	"C13": C13,
 	"C14": C14,
+	"C15": C15,
 	"C16": C16,
 	"C10": C10,
 	"C11": C11,
